@@ -19,7 +19,7 @@ pub struct Case {
     pub prefix: u8,
 }
 
-const TEMPLATES: &[&str] = &["bind", "arg", "nested-arg", "if-arm", "list-elem", "record-field", "lambda-body", "tuple-elem", "block-value", "kw-arg"];
+const TEMPLATES: &[&str] = &["bind", "arg", "nested-arg", "if-arm", "list-elem", "record-field", "lambda-body", "tuple-elem", "block-value", "kw-arg", "bind-bang-name"];
 const EFFECTS: &[&str] = &["proc-call", "print", "proc-method", "read-outer-mut", "proc-with-arg"];
 const WRAPS: &[&str] = &["id", "plus", "paren", "list-index", "if"];
 
@@ -77,7 +77,7 @@ fn body(case: &Case, c: &Ctx) -> Option<Vec<String>> {
                 }
             }
             match template {
-                "bind" | "arg" | "nested-arg" => lines.push("1".into()),
+                "bind" | "bind-bang-name" | "arg" | "nested-arg" => lines.push("1".into()),
                 "block-value" => {
                     // the effect statement inside a block-valued binding
                     let eff = lines.split_off((case.prefix % 3) as usize);
@@ -109,6 +109,11 @@ fn body(case: &Case, c: &Ctx) -> Option<Vec<String>> {
                 "bind" => {
                     lines.push(format!("x = {e}"));
                     lines.push("x + 1".into());
+                }
+                "bind-bang-name" => {
+                    // a local whose name ends in `!` is still a plain binding
+                    lines.push(format!("x! = {e}"));
+                    lines.push("x! + 1".into());
                 }
                 "arg" => lines.push(format!("id_({e})")),
                 "nested-arg" => lines.push(format!("id_(id_({e}) + 1)")),
@@ -151,7 +156,7 @@ impl Property for C22 {
         "C22"
     }
     fn rule(&self) -> String {
-        "one effectful operation (call of a user procedure with/without argument, print!, a procedural method on a local mutable list, a read of a mutable variable defined outside) placed at a generated position (binding, call argument, nested argument, keyword argument, if arm, list / tuple element, record field, lambda body, block-valued binding) under 0-3 pure wrappers (identity call, + 1, parentheses, list index, if expression) after 0-2 pure statements; the same body is written as a function `f() =`, as a procedure `p!() =` and at module top level (with the do / do!, if / if!, -> / => spelling the context requires). Oracle: the function variant must be rejected with >= 1 HasEffect diagnostic; the procedure and top-level variants must be accepted without any error. Non-trivial = effect at depth >= 2 (>= 1 wrapper or a nested position); distinct by case".into()
+        "one effectful operation (call of a user procedure with/without argument, print!, a procedural method on a local mutable list, a read of a mutable variable defined outside) placed at a generated position (binding, binding to a name ending in `!`, call argument, nested argument, keyword argument, if arm, list / tuple element, record field, lambda body, block-valued binding) under 0-3 pure wrappers (identity call, + 1, parentheses, list index, if expression) after 0-2 pure statements; the same body is written as a function `f() =`, as a procedure `p!() =` and at module top level (with the do / do!, if / if!, -> / => spelling the context requires). Oracle: the function variant must be rejected with >= 1 HasEffect diagnostic; the procedure and top-level variants must be accepted without any error. Non-trivial = effect at depth >= 2 (>= 1 wrapper or a nested position); distinct by case".into()
     }
     fn strategy(&self, _tier: Tier) -> BoxedStrategy<Case> {
         (0u8..TEMPLATES.len() as u8, 0u8..EFFECTS.len() as u8, proptest::collection::vec(0u8..WRAPS.len() as u8, 0..4), 0u8..3)
